@@ -153,6 +153,29 @@ LJAt(site) == LET is1 == CmpE("==", Var("i"), N(1)) IN
     [] site = "none" -> <<>>
 LoopJumps == {C("loopjump/" \o st, <<For3(Def1("i", N(0)), PB(1, CmpE("<", Var("i"), N(3))), Asg1("i", PI(2, Bin("+", Var("i"), N(1)))), LJAt(st) \o <<PrintS(<<StrL("body"), Var("i")>>)>>)>>) : st \in LJSites}
              \cup {C("rangejump/" \o st, <<RangeS("i", "v", SliceLit("int", <<PI(1, N(10)), PI(2, N(20)), PI(3, N(30))>>), LJAt(st) \o <<PrintS(<<StrL("body"), Var("i"), Var("v")>>)>>)>>) : st \in LJSites}
-All == LoopJumps \cup WorldOrder \cup MixedLogic \cup MixedArith \cup Exprs \cup Calls \cup Stores \cup World \cup Chains \cup Switches \cup Loops
+
+\* a loop whose condition and increment are probed calls a function (from its body, its condition or its increment) that runs a loop of its own, of every
+\* form, at the same depth or one deeper: the caller's increment still runs exactly once before every re-test, the callee's condition once per test
+CalleeLoops == {"for3", "forcond", "forinf", "for3nopost", "range", "none"}
+CalleeBody(ff) ==
+  CASE ff = "for3" -> <<For3(Def1("j", N(0)), PB(7, CmpE("<", Var("j"), N(2))), Asg1("j", PI(8, Bin("+", Var("j"), N(1)))), <<Compound("t", "+", Var("j"))>>)>>
+    [] ff = "forcond" -> <<Def1("j", N(0)), ForCond(PB(7, CmpE("<", Var("j"), N(2))), <<Inc("j"), Compound("t", "+", N(10))>>)>>
+    [] ff = "forinf" -> <<Def1("j", N(0)), ForInf(<<Inc("j"), If1(PB(7, CmpE(">", Var("j"), N(2))), <<BreakS>>), Compound("t", "+", N(100))>>)>>
+    [] ff = "for3nopost" -> <<For3(Def1("j", N(0)), PB(7, CmpE("<", Var("j"), N(2))), NoneN, <<Inc("j"), Compound("t", "+", N(1000))>>)>>
+    [] ff = "range" -> <<RangeS("j", "e", SliceLit("int", <<PI(7, N(5)), PI(8, N(6))>>), <<Compound("t", "+", Var("e"))>>)>>
+    [] ff = "none" -> <<Compound("t", "+", PI(7, N(1)))>>
+CalleeOf(ff, deeper) == Func("work", <<Param("n", "int")>>, <<"int">>,
+   <<Def1("t", Var("n"))>> \o (IF deeper THEN <<If1(PB(6, CmpE(">=", Var("n"), N(0))), CalleeBody(ff))>> ELSE CalleeBody(ff)) \o <<RetS(<<Var("t")>>)>>)
+WK(e) == CallE("work", <<e>>)
+CallerOf(cf, pl) ==
+  LET body == IF pl = "body" THEN <<PrintS(<<StrL("body"), Var("i"), WK(Var("i"))>>)>> ELSE <<PrintS(<<StrL("body"), Var("i")>>)>>
+      cond == IF pl = "cond" THEN PB(1, CmpE("<", Bin("+", Var("i"), Bin("-", WK(Var("i")), WK(Var("i")))), N(3))) ELSE PB(1, CmpE("<", Var("i"), N(3)))
+      post == IF pl = "post" THEN Asg1("i", PI(2, Bin("+", Bin("+", Var("i"), N(1)), Bin("-", WK(Var("i")), WK(Var("i")))))) ELSE Asg1("i", PI(2, Bin("+", Var("i"), N(1))))
+  IN CASE cf = "for3" -> <<For3(Def1("i", N(0)), cond, post, body)>>
+       [] cf = "nested" -> <<For3(Def1("o", N(0)), PB(3, CmpE("<", Var("o"), N(2))), Asg1("o", PI(4, Bin("+", Var("o"), N(1)))), <<For3(Def1("i", N(0)), cond, post, body), PrintS(<<StrL("o"), Var("o")>>)>>)>>
+       [] cf = "infunc" -> <<Func("run", <<>>, <<>>, <<For3(Def1("i", N(0)), cond, post, body)>>), ExprS(CallE("run", <<>>))>>
+LoopCalls == {C("loopcall/" \o cf \o "-" \o pl \o "/" \o ff \o (IF dp THEN "-deeper" ELSE ""), <<CalleeOf(ff, dp)>> \o CallerOf(cf, pl) \o <<L("end")>>)
+              : cf \in {"for3", "nested", "infunc"}, pl \in {"body", "cond", "post"}, ff \in CalleeLoops, dp \in BOOLEAN}
+All == LoopCalls \cup LoopJumps \cup WorldOrder \cup MixedLogic \cup MixedArith \cup Exprs \cup Calls \cup Stores \cup World \cup Chains \cup Switches \cup Loops
 ASSUME ndJsonSerialize("fam.ndjson", SetToSeq(All))
 =============================================================================
